@@ -17,8 +17,9 @@ RULE = (
     "core: Hypothesis op lists over pin_mode/digital_write/analog_write/digital_read/analog_read on pins 0..19, their "
     "str forms and 'A0'..'A5', compared step by step with a dict model written from the statement (module reloaded per "
     "case); map: ints/floats incl. reversed ranges against exact rational arithmetic with a forward-error bound, plus "
-    "ValueError iff zero-width; sleep: injected sleep_func and patched time.sleep; button/pot/ultrasonic: provider "
-    "sequences; serial: fake pyserial backend. Non-trivial = core history touching >=2 pins with both int and str "
+    "ValueError iff zero-width; sleep: injected sleep_func and patched time.sleep; button: level sequences over any truthiness carrier (bool, 0/1/2/255/-1, "
+    "floats, strings, None) delivered by a provider or by set_pressed with 0-3 further level changes between two polls (only the level at a poll is a sample); "
+    "pot/ultrasonic: provider sequences; serial: fake pyserial backend. Non-trivial = core history touching >=2 pins with both int and str "
     "names and a read after a write; map with reversed or float range; provider sequence with an out-of-range value or "
     ">=2 rising edges; serial write of a non-str value with a connected port. distinct = distinct case."
 )
@@ -27,6 +28,7 @@ ASSUMPTIONS = [
     "Utils.map is compared with the exact rational affine map under a 16-ulp forward error bound (no overflow/underflow in the generated domain)",
     "digital and analogue values of a pin are separate stores (the least demanding reading of 'last value written')",
     "a Button whose first sample is already pressed may or may not count that as an edge (both accepted)",
+    "the signal a Button sees is the sequence of levels present at its is_pressed() calls; a level is pressed iff it is truthy",
 ]
 
 PINS_INT = list(range(0, 20))
@@ -204,10 +206,12 @@ def eval_sleep(ms, mode):
 
 
 # ------------------------------------------------------------------ sensors
-def eval_button(seq, use_provider, with_cb):
+def eval_button(seq, use_provider, with_cb, gaps=None):
+    """seq: provided values (any truthiness carrier); gaps[i] (set_pressed mode): levels set *before* seq[i] without a poll in between -
+    only the level present at a poll is a sample of the signal."""
     from Reduino.Sensors import Button
 
-    case = {"kind": "button", "seq": seq, "use_provider": use_provider, "with_cb": with_cb}
+    case = {"kind": "button", "seq": seq, "use_provider": use_provider, "with_cb": with_cb, "gaps": gaps}
     clicks = []
     it = iter(seq)
     kw = {}
@@ -218,15 +222,17 @@ def eval_button(seq, use_provider, with_cb):
     b = Button(4, **kw)
     out = []
     per_step = []
-    for s in seq:
+    for i, s in enumerate(seq):
         if not use_provider:
+            for g in (gaps[i] if gaps and i < len(gaps) else []):
+                b.set_pressed(g)
             b.set_pressed(s)
         n0 = len(clicks)
         out.append(b.is_pressed())
         per_step.append(len(clicks) - n0)
     lv = [1 if s else 0 for s in seq]
     fails = []
-    if out != lv:
+    if out != lv or any(type(o) is not int for o in out):
         fails.append(("button-return-value", lv, out))
     if with_cb:
         want_steps = [1 if (i > 0 and lv[i] and not lv[i - 1]) else 0 for i in range(len(lv))]
@@ -417,18 +423,24 @@ def run_shard(name, seed, tier, what, n):
             r.case({"kind": "sleep", "ms": ms, "mode": mode}, ms < 0 or isinstance(ms, float))
             record(fails)
     elif what == "sensors":
-        lv = st.lists(st.one_of(st.booleans(), st.integers(0, 1)), min_size=1, max_size=20)
+        level = st.one_of(st.booleans(), st.integers(0, 1), st.sampled_from([0, 1, 2, 3, 255, -1, 0.0, 0.5, 1.0, "", "a", "0", None]))
+        lv = st.lists(level, min_size=1, max_size=20)
+        gaps_st = st.lists(st.lists(level, max_size=3), max_size=20)
         potv = st.lists(st.one_of(st.integers(0, 1023), st.sampled_from([0, 1023, 1024, -1, 512, 5000, True]), st.integers(-50, 1100)), min_size=1, max_size=10)
         ultv = st.lists(st.one_of(st.floats(0, 500, allow_nan=False), st.integers(0, 400), st.sampled_from([0, 0.0, -0.0, -1, -0.001, 400, 2.5, 1e6])), min_size=1, max_size=10)
         how = st.one_of(st.just({}), st.fixed_dictionaries({"key": st.sampled_from(["sensor", "model"]), "sensor": st.sampled_from(["HC-SR04", "hc-sr04", "hc_sr04", " HC-SR04 ", "Hc_Sr04"])}))
 
         @hseed(seed)
         @hyp_settings(n)
-        @given(lv, st.booleans(), st.booleans(), potv, st.sampled_from(["A0", "A5", " A1 ", "A15"]), ultv, how)
-        def prop(seq, use_provider, with_cb, pv, pin, uv, hw):
-            f1 = eval_button(seq, use_provider, with_cb)
+        @given(lv, st.booleans(), st.booleans(), potv, st.sampled_from(["A0", "A5", " A1 ", "A15"]), ultv, how, gaps_st)
+        def prop(seq, use_provider, with_cb, pv, pin, uv, hw, gaps):
+            f1 = eval_button(seq, use_provider, with_cb, gaps)
             edges = sum(1 for i in range(1, len(seq)) if seq[i] and not seq[i - 1])
-            r.case({"kind": "button", "seq": seq, "use_provider": use_provider, "with_cb": with_cb}, with_cb and edges >= 2)
+            r.case({"kind": "button", "seq": seq, "use_provider": use_provider, "with_cb": with_cb, "gaps": gaps}, with_cb and edges >= 2)
+            if not use_provider and any(gaps[: len(seq)]):
+                r.count("button_level_changes_between_polls")
+            if any(type(x) not in (bool,) and x not in (0, 1) for x in seq):
+                r.count("button_non_boolean_levels")
             f2 = eval_pot(pv, pin)
             r.case({"kind": "pot", "seq": pv, "pin": pin}, any(not 0 <= v <= 1023 for v in pv))
             f3 = eval_ultra(uv, hw)
@@ -462,7 +474,7 @@ def replay(case):
     if k == "sleep":
         return eval_sleep(case["ms"], case["mode"])
     if k == "button":
-        return eval_button(case["seq"], case["use_provider"], case["with_cb"])
+        return eval_button(case["seq"], case["use_provider"], case["with_cb"], case.get("gaps"))
     if k == "pot":
         return eval_pot(case["seq"], case["pin"])
     if k == "ultra":
